@@ -6,9 +6,31 @@ from vlib import Check, VERIF
 
 META = {
     "engine": "E1+E2+E3+E5",
-    "text": "stub",
-    "note": "stub",
+    "text": "Coq theorems over an executable model of ThreadId recycling, EnumerableThreadLocal (one-entry cache keyed "
+            "by the never reused _id, storage indexed by thread id, block-wise growth), CompactEnumerableThreadLocal "
+            "(instance id -> (storage, cache-line offset), destructor zeroing, id recycling, move = swap) and the "
+            "adder/summer/maxer/miner cells, for EVERY history of thread spawn/exit and counter construct/destroy/"
+            "move/add/reset: value() of an adder/summer at a quiescent point is exactly the sum (and count) of what was "
+            "added to that counter, a new counter reads zero whatever it recycles, local() is private to a live thread "
+            "and stable until it exits, for_each covers every line ever used, the const for_each_alive stays in "
+            "bounds.  The slot formulas (id %% N, id / N), the cache test, for_each/for_each_alive bounds and clamps, "
+            "the zeroing index, the comparer and version tests are regenerated from thread_local.h / counter.h on every "
+            "run, so an edited expression re-opens a proof.  Tie: the extracted model and the real classes (real "
+            "threads in strict hand-off, thread exit = join, forked process per history) replay the same histories and "
+            "must print the same instance ids, slot indexes, read values and visited lists; monitors check the "
+            "property text directly against harness-side totals, plus a concurrent reader-bounds stress run.",
+    "note": "Refuted on the model and reproduced on the real code (KNOWN_FINDINGS): non-const "
+            "EnumerableThreadLocal::for_each_alive (the overload CompactEnumerableThreadLocal always reaches) reads out "
+            "of bounds when a live thread id >= this storage's size; a maxer/miner whose only sample equals "
+            "numeric_limits min/max reports an empty period.  Not proved, monitors only: exactness of const "
+            "for_each_alive (in-bounds is proved), maxer/miner extreme for non-sentinel samples, reader bounds under "
+            "real concurrency (stress monitor, non-deterministic; an interleaving model CTModel.rstep is provided).  "
+            "Assumption threads_small: < 65408 thread ids ever allocated (for_each casts size() to uint16_t: 65536 "
+            "lines wrap to 0; not replayed).  Trusted: Coq kernel, translator (regex/cond targets), ExtrOcamlBasic "
+            "extraction + ocaml/ct_driver.ml, harness/seq/c19_counter.cpp (-fno-access-control to read ids), ghost "
+            "fields g_sum/g_cnt/g_per/g_used of the model as the meaning of 'everything added'.",
 }
+
 
 KINDS_MODEL = ["A", "S", "X", "N", "C"]
 INT64_MIN = -(1 << 63)
@@ -107,6 +129,62 @@ def gen_history(rng, kind, size, aim):
     return ops
 
 
+def targeted(kind):
+    """deterministic boundary histories (the windows the property names)"""
+    out = []
+    if kind in ("C",):
+        # refutation witness of c19_for_each_alive_refuted: 17th instance lives in an untouched second storage
+        out.append(["sp0"] + ["n%d@0" % i for i in range(17)] + ["a0,5@0", "fc16@0", "fe16@0", "fa16@0", "r16@0", "a16,3@0", "fa16@0", "r16@0"])
+        # a full cache line of instances, destroyed and recreated in another order: every offset recycled
+        h = ["sp0", "sp1"] + ["n%d@0" % i for i in range(16)]
+        h += ["a%d,%d@%d" % (i, i + 1, i % 2) for i in range(16)]
+        h += ["d%d@1" % i for i in (3, 0, 15, 7, 8)] + ["n%d@1" % i for i in (20, 21, 22, 23, 24)]
+        h += ["r%d@0" % i for i in (20, 21, 22, 23, 24, 1, 2, 14)]
+        out.append(h)
+    if kind in ("C", "A", "S", "E"):
+        # more live threads than one block of the storage vector (128): second block, ids beyond the first
+        nt = 140
+        h = ["sp%d" % t for t in range(nt)] + ["n0@0", "n1@0"]
+        h += ["a0,%d@%d" % (t + 1, t) for t in range(nt)] + ["r0@5"]
+        h += ["ex%d" % t for t in range(100, 140)] + ["r0@5"]
+        h += ["sp%d" % t for t in range(200, 220)] + ["a0,1000@%d" % t for t in range(200, 220)] + ["r0@3", "a1,9@139", "r1@0"]
+        if kind in ("C", "E"):
+            h += ["fc0@0", "fe0@0", "fc1@0", "fe1@0", "fa0@0"]
+        h += ["d0@0", "n2@0", "r2@0"]
+        out.append(h)
+    if kind in ("X", "N"):
+        ext = INT64_MIN if kind == "X" else INT64_MAX
+        out.append(["sp0", "n0@0", "a0,%d@0" % ext, "r0@0"])                       # witness of c19_extreme_refuted
+        out.append(["sp0", "sp1", "n0@0", "r0@0", "a0,5@0", "a0,-7@1", "r0@0", "z0@0", "r0@1", "a0,-9@1", "r0@0", "ex1", "r0@0",
+                    "sp2", "a0,-20@2", "r0@2", "z0@2", "a0,-3@2", "r0@0", "d0@0", "n1@2", "r1@2", "a1,2@2", "r1@0"])
+    if kind == "E":
+        # address reuse: destroyed and re-created at the same address, threads keep a cache entry for the old one
+        out.append(["sp0", "sp1", "n0@0", "a0,5@0", "a0,7@1", "d0@0", "n0@0", "r0@0", "a0,1@1", "a0,2@0", "r0@1", "fe0@0",
+                    "n1@0", "fc1@0", "fa1@0", "mv0,1@1", "r0@0", "r1@0", "a1,4@0", "r1@1", "d1@1", "mc1,0@0", "r1@1", "a1,1@1", "r1@0"])
+    return out
+
+
+def sig_of(kind, mon, info):
+    if mon == "oob":
+        return "alive-nonconst-oob" if info.startswith("non-const") else "alive-const-oob"
+    if mon == "exact" and kind in ("X", "N"):
+        ext = INT64_MIN if kind == "X" else INT64_MAX
+        if info.startswith("read 0,0 want %d" % ext):
+            return "extremum-sentinel"
+    return "mon-" + mon
+
+
+WHAT = {
+    "exact": "value() at a quiescent point differs from what was added",
+    "fresh": "a newly constructed counter does not read zero",
+    "private": "two live threads were given the same local() slot",
+    "stable": "a live thread's local() slot changed",
+    "allused": "for_each misses a slot that local() returned",
+    "alive": "for_each_alive does not visit exactly the slots of live threads",
+    "oob": "for_each_alive visits memory outside the instance's storage",
+}
+
+
 def main(argv):
     chk = Check("C19", argv)
     thorough = chk.tier == "thorough"
@@ -122,8 +200,10 @@ def main(argv):
         r = json.load(open(chk.replay))["replay"]
         cases = [("r0", r["kind"], r["ops"])]
     else:
-        n = 40 if not thorough else 400
+        n = 40 if not thorough else 500
         for kind in ["A", "S", "X", "N", "C", "E"]:
+            for j, h in enumerate(targeted(kind)):
+                cases.append(("%st%d" % (kind.lower(), j), kind, h))
             aims = ["plain", "plain", "manythreads"]
             if kind in ("X", "N"):
                 aims.append("extreme")
@@ -133,31 +213,104 @@ def main(argv):
                 aims += ["alive"]
             for i in range(n):
                 aim = aims[i % len(aims)]
-                cases.append(("%s%d" % (kind.lower(), i), kind, gen_history(rng, kind, 20 + rng.below(60), aim)))
+                cases.append(("%s%d" % (kind.lower(), i), kind, gen_history(rng, kind, 20 + rng.below(60 if not thorough else 200), aim)))
+        reps = 3 if not thorough else 20
+        for kind in ["PA", "PS", "PX", "PN"]:
+            for i in range(reps):
+                for churn in (0, 1):
+                    cases.append(("%s%d_%d" % (kind.lower(), i, churn), kind,
+                                  [str(2 + rng.below(5)), str(20000 if not thorough else 200000), "3000", str(churn)]))
     lines = ["%s %s %s" % (cid, kind, " ".join(ops)) for cid, kind, ops in cases]
     chk.log("%d histories" % len(lines))
-    impl_out = chk.run_cases(impl, lines, timeout=600) if impl else {}
-    model_out = chk.run_cases(model, [l for l, c in zip(lines, cases) if c[1] in KINDS_MODEL], timeout=600, jobs=4) if model else {}
+    seq_lines = [l for l, c in zip(lines, cases) if c[1][0] != "P"]
+    par_lines = [l for l, c in zip(lines, cases) if c[1][0] == "P"]
+    impl_out = chk.run_cases(impl, seq_lines, timeout=900) if impl else {}
+    if impl and par_lines:
+        impl_out.update(chk.run_cases(impl, par_lines, timeout=900, jobs=2))
+    model_out = chk.run_cases(model, [l for l, c in zip(lines, cases) if c[1] in KINDS_MODEL], timeout=900) if model else {}
     validated = 0
+    nontrivial = set()
+    ncorr = 0
     for cid, kind, ops in cases:
         rep = {"kind": kind, "ops": ops}
         l = impl_out.get(cid)
         if l is None:
             continue
-        if " CRASH" in l[:len(cid) + 8]:
-            chk.violate("crash", "driver crashed on history: %s" % l[:200], rep)
+        if l.split()[1:2] == ["CRASH"] or l.startswith("CRASH"):
+            chk.violate("crash", "the real classes crashed on this history: %s" % l[:200], rep)
             continue
-        obs, mon = l.split(" | ")
-        for m in mon.split():
-            if m.endswith("=0"):
-                chk.violate("mon-" + m[:-2], "monitor %s failed: %s" % (m[:-2], mon[:300]), rep)
+        if " | " not in l:
+            chk.broke("harness", "unparsable driver line", l[:300])
+            continue
+        obs, mon = l.split(" | ", 1)
+        if kind[0] == "P":
+            for m in mon.split(" fail=")[0].split():
+                if m.endswith("=0"):
+                    chk.violate("par-" + m[:-2], "concurrent readers: a read was outside [completed before, started before] "
+                                "or the final value is wrong (%s): %s" % (m[:-2], mon[:300]), dict(rep, impl_line=l))
+            nontrivial.add((kind, " ".join(ops)))
+            continue
+        fails = mon.split(" fail=")[1:]
+        flagged = set()
+        for f in fails:
+            name, _, rest = f.partition("@")
+            opi, _, info = rest.partition(":")
+            sig = sig_of(kind, name, info)
+            flagged.add(name)
+            chk.violate(sig, "%s (kind %s, op #%s %s): %s" % (WHAT.get(name, name), kind, opi,
+                                                               ops[int(opi)] if opi.isdigit() and int(opi) < len(ops) else "", info),
+                        dict(rep, impl_line=l[:2000]))
+        for m in mon.split(" fail=")[0].split():
+            if m.endswith("=0") and m[:-2] not in flagged:
+                chk.violate("mon-" + m[:-2], WHAT.get(m[:-2], m[:-2]), dict(rep, impl_line=l[:2000]))
+        # measured non-triviality: an instance id handed out twice and a slot index used by two different threads
+        toks = obs.split()[1:]
+        iids = [t.split("=")[1] for t in toks if t.startswith("n=") or t.startswith("mc=")]
+        slot_threads = {}
+        for o, t in zip(ops, toks):
+            if t.startswith("a=") and "@" in o:
+                slot_threads.setdefault(t[2:], set()).add(o.split("@")[1])
+        if len(iids) != len(set(iids)) and any(len(v) > 1 for v in slot_threads.values()):
+            nontrivial.add((kind, " ".join(ops)))
         ml = model_out.get(cid)
         if ml is not None:
             validated += 1
             if ml.strip() != obs.strip():
-                chk.broke("correspondence", "CTModel vs implementation on %s" % cid, "impl : %s\nmodel: %s\nops: %s" % (obs, ml, " ".join(ops)))
-                if len([b for b in chk.broken if b[0] == "correspondence"]) > 3:
-                    break
+                ncorr += 1
+                if ncorr <= 3:
+                    mt, it = ml.split(), obs.split()
+                    k = next((i for i in range(min(len(mt), len(it))) if mt[i] != it[i]), min(len(mt), len(it)))
+                    chk.broke("correspondence", "CTModel vs implementation, kind %s" % kind,
+                              "first difference at op #%d (%s): impl %s model %s\nops: %s" %
+                              (k - 1, ops[k - 1] if 0 < k <= len(ops) else "?", it[k] if k < len(it) else "-",
+                               mt[k] if k < len(mt) else "-", " ".join(ops)[:1500]))
+        elif kind in KINDS_MODEL and model:
+            chk.broke("correspondence", "model driver gave no line for %s" % cid, "")
     chk.cov["evaluations"] = len(lines)
+    chk.cov["distinct_nontrivial"] = len(nontrivial)
     chk.cov["traces_validated_against_impl"] = validated
+    chk.cov["rule"] = ("case = (kind, history); kinds: ConcurrentAdder, ConcurrentSummer, ConcurrentMaxer, ConcurrentMiner, "
+                       "CompactEnumerableThreadLocal<int64,1> (16 per line), EnumerableThreadLocal (monitors only), plus "
+                       "concurrent reader-bounds stress runs; histories are seeded random mixes of thread spawn/exit, "
+                       "construct/destroy/move-assign/move-construct (handles re-used so ids and addresses recycle), add "
+                       "(boundary values incl. INT64_MIN/MAX for maxer/miner), read, reset, for_each, for_each_alive (both "
+                       "overloads), steered at many instances (second storage), many threads, and enumeration; plus fixed "
+                       "boundary histories: the two refutation witnesses, 140 live threads (second vector block) with exit "
+                       "and re-spawn, a full cache line of instances recycled, address reuse of a destroyed "
+                       "EnumerableThreadLocal.  distinct non-trivial = histories in which an instance id was handed out "
+                       "twice AND a slot index was used by two different threads (measured from the implementation's "
+                       "output), plus the stress runs")
+    for cid, kind, ops in cases[:: max(1, len(cases) // 5)]:
+        chk.sample({"case": "%s %s %s" % (cid, kind, " ".join(ops)[:300]), "impl": (impl_out.get(cid) or "")[:300],
+                    "model": (model_out.get(cid) or "")[:300]})
+    chk.cov["trusted_base"] = chk.cov.get("trusted_base", []) + [
+        "translator/gen.py (regex/cond/ret targets of thread_local.h and counter.h -> Z terms)",
+        "extraction: ExtrOcamlBasic only; ocaml/ct_driver.ml",
+        "harness/seq/c19_counter.cpp (hand-off threads, fork per history, -fno-access-control to read _instance_id/_storage)",
+        "modelled not verified: IdAllocator as a sequential LIFO free list (C14), ConcurrentVector growth in blocks (C04), "
+        "operator new memory (zero/constructed blocks), 128-bit SSE add of the summer as two independent 64-bit adds"]
+    chk.assumptions = ["fewer than 65408 thread ids ever allocated per cell type (uint16 cast of size() in for_each)",
+                       "no integer overflow of the sums (model integers are unbounded)",
+                       "fewer than 2^64-1 resets of one maxer/miner (version never reaches the SIZE_MAX sentinel)",
+                       "quiescent reads; concurrent reads are covered by the stress monitor only (x86-64 TSO)"]
     chk.finish("proof")
